@@ -76,3 +76,17 @@ def disagree_one(req, canon=None):
     if canon:
         a, b = canon(req[0], a), canon(req[0], b)
     return a != b or (isinstance(a, Err) and a.kind in MODEL_FAULTS)
+
+
+def history_witnesses(diffs):
+    """disagreements of view histories (query, turns assignment, query): the direct statement of the property on the
+    implementation is that every view equals that of a fresh complex at the same rotation"""
+    from common import run_impl
+    hreqs = [d[1] for d in diffs if d[1][0] == "c03_history"][:20]
+    out = []
+    if hreqs:
+        for rq, r in zip(hreqs, run_impl([("c03_fresh_compare", q[1]) for q in hreqs])):
+            if isinstance(r, Err) or r:
+                out.append({"key": {"seq": rq[1][0], "struct": "".join(rq[1][1]), "ops": rq[1][2]}, "input": {"history": rq[1]},
+                            "what": str(r), "snippet": f"# harness op c03_fresh_compare {rq[1]!r} (harness/impl/views.py)"})
+    return out
